@@ -117,9 +117,26 @@ def step_props(prop, outdir, log):
             "partial": [n for n in names if n.endswith("_partial")]}
 
 
-def step_lint(log):
+def dep_closure(prop):
+    """Coq sources (relative paths) that Props/<prop>.v depends on, transitively (Verif.* only)."""
+    seen, todo = set(), ["Props/%s.v" % prop]
+    while todo:
+        rel = todo.pop()
+        if rel in seen or not os.path.exists(os.path.join(COQ, rel)):
+            continue
+        seen.add(rel)
+        txt = open(os.path.join(COQ, rel)).read()
+        txt = re.sub(r"\(\*.*?\*\)", "", txt, flags=re.S)
+        for m in re.finditer(r"From\s+Verif\s+Require\s+(?:Import|Export)\s+(.*?)\.(?:\s|$)", txt, flags=re.S):
+            for mod in m.group(1).split():
+                todo.append(mod.replace(".", "/") + ".v")
+    return sorted(seen)
+
+
+def step_lint(prop, log):
+    """No Admitted/admit/Axiom/... in any file the property's theorems depend on."""
     bad = []
-    for rel in coq_sources():
+    for rel in dep_closure(prop):
         if rel.startswith("Gen/"):
             continue
         txt = open(os.path.join(COQ, rel)).read()
@@ -131,18 +148,33 @@ def step_lint(log):
     return not bad
 
 
+def test_pkgs(prop):
+    """[(package dir, test name)] for the property; a test may be written "pkg:TestName"."""
+    cfg = PROPS[prop]
+    out = []
+    for t in cfg["tests"]:
+        if ":" in t:
+            pkg, name = t.split(":", 1)
+        else:
+            pkg, name = cfg.get("pkg", prop.lower()), t
+        out.append((pkg, name))
+    return out
+
+
 def step_harness_build(prop, outdir, log, tags="verif"):
-    """Compile the property's own harness package (harness/<cxx>/) against REPO's working tree."""
+    """Compile the property's harness package(s) (harness/<pkg>/) against REPO's working tree."""
     with Lock("harness"):
         shutil.copyfile(os.path.join(REPO, "go.sum"), os.path.join(HARNESS, "go.sum"))
-        pkg = "./" + PROPS[prop].get("pkg", prop.lower())
-        rc, out = sh([GO_HARNESS, "test", "-c", "-tags", tags, "-o", os.path.join(outdir, "harness.test"), pkg],
-                     cwd=HARNESS, timeout=1500)
-        log.append("[harness build %s] rc=%d\n%s" % (pkg, rc, out[-6000:]))
-        return rc == 0 and os.path.exists(os.path.join(outdir, "harness.test"))
+        ok = True
+        for pkg in sorted(set(p for p, _ in test_pkgs(prop))):
+            binp = os.path.join(outdir, "harness-%s.test" % pkg)
+            rc, out = sh([GO_HARNESS, "test", "-c", "-tags", tags, "-o", binp, "./" + pkg], cwd=HARNESS, timeout=1500)
+            log.append("[harness build %s] rc=%d\n%s" % (pkg, rc, out[-6000:]))
+            ok = ok and rc == 0 and os.path.exists(binp)
+        return ok
 
 
-def step_harness_run(test, outdir, seed, n, tier, replay, log, timeout, extra_env=None):
+def step_harness_run(pkg, test, outdir, seed, n, tier, replay, log, timeout, extra_env=None):
     env = dict(ENV)
     env.update({"VERIF_OUT": outdir, "VERIF_SEED": str(seed), "VERIF_TIER": tier,
                 "VERIF_CORPUS": os.path.join(VERIF, "corpus")})
@@ -152,9 +184,9 @@ def step_harness_run(test, outdir, seed, n, tier, replay, log, timeout, extra_en
         env["VERIF_REPLAY"] = replay
     if extra_env:
         env.update(extra_env)
-    rc, out = sh([os.path.join(outdir, "harness.test"), "-test.run", "^%s$" % test, "-test.timeout", "%ds" % timeout,
-                  "-test.v"], cwd=os.path.join(HARNESS, PROPS_PKG(test)), env=env, timeout=timeout + 30)
-    log.append("[harness %s seed=%s n=%s] rc=%d\n%s" % (test, seed, n, rc, out[-6000:]))
+    rc, out = sh([os.path.join(outdir, "harness-%s.test" % pkg), "-test.run", "^%s$" % test, "-test.timeout", "%ds" % timeout,
+                  "-test.v"], cwd=os.path.join(HARNESS, pkg), env=env, timeout=timeout + 30)
+    log.append("[harness %s:%s seed=%s n=%s] rc=%d\n%s" % (pkg, test, seed, n, rc, out[-6000:]))
     return rc == 0, out
 
 
@@ -218,8 +250,19 @@ def explore(prop, cfg, outdir, seed, n, tier, replay, log, timeout):
         os.remove(f)
     r = {"harness_ok": True, "coq_ok": True, "bad": [], "mism": [], "kf": {}, "evaluations": 0,
          "nontrivial_keys": set(), "samples": [], "dist": {}, "cov": {}, "direct": [], "direct_known": {}}
-    for test in cfg["tests"]:
-        ok, out = step_harness_run(test, outdir, seed, n, tier, replay, log, timeout)
+    tests = test_pkgs(prop)
+    if replay:
+        # a replay file names the case file it was cut from; run only the test that writes it
+        try:
+            cfile = json.load(open(replay)).get("case_file")
+        except Exception:
+            cfile = None
+        only = cfg.get("case_files", {}).get(cfile)
+        if only:
+            pkg, name = only.split(":", 1)
+            tests = [(pkg, name)]
+    for pkg, test in tests:
+        ok, out = step_harness_run(pkg, test, outdir, seed, n, tier, replay, log, timeout)
         if not ok:
             r["harness_ok"] = False
             r["harness_out"] = out[-3000:]
@@ -257,10 +300,10 @@ def explore(prop, cfg, outdir, seed, n, tier, replay, log, timeout):
     for dj in sorted(glob.glob(os.path.join(outdir, "direct*.json"))):
         d = json.load(open(dj))
         r["evaluations"] += d.get("evaluations", 0)
-        for k in d.get("nontrivial_keys", []):
+        for k in (d.get("nontrivial_keys") or []):
             r["nontrivial_keys"].add(k)
-        r["direct"] += d.get("violations", [])
-        for k, v in d.get("known", {}).items():
+        r["direct"] += (d.get("violations") or [])
+        for k, v in (d.get("known") or {}).items():
             r["direct_known"].setdefault(k, []).extend(v)
         if d.get("samples") and len(r["samples"]) < 4:
             r["samples"] += d["samples"][:2]
@@ -308,7 +351,7 @@ def main(argv):
         prepare_alt()
 
     gen_ok = step_gen(log)
-    lint_ok = step_lint(log)
+    lint_ok = step_lint(prop, log)
     make_ok = step_make("Props/%s.vo" % prop, log)
     pr = step_props(prop, outdir, log) if make_ok else {"ok": False, "obligations": 0, "discharged": 0, "theorems": [],
                                                          "axioms": [], "unprinted": [], "refuted": [], "partial": [], "rc": 1}
